@@ -55,20 +55,31 @@ fn kc9_adler_len_0_1_2_3() {
 }
 
 #[kani::proof]
-#[kani::unwind(20)]
-fn kc9_adler_len_15_16_17() {
-    fixed_len::<15>();
-    fixed_len::<16>();
-    fixed_len::<17>();
+#[kani::unwind(10)]
+fn kc9_adler_len_4_5() {
+    fixed_len::<4>();
+    fixed_len::<5>();
     kani::cover!(true);
 }
 
 #[kani::proof]
-#[kani::unwind(40)]
-fn kc9_adler_len_31_32_33() {
-    fixed_len::<31>();
-    fixed_len::<32>();
-    fixed_len::<33>();
+#[kani::unwind(20)]
+fn kc9_adler_len_8() {
+    fixed_len::<8>();
+    kani::cover!(true);
+}
+
+#[kani::proof]
+#[kani::unwind(20)]
+fn kc9_adler_len_16() {
+    fixed_len::<16>();
+    kani::cover!(true);
+}
+
+#[kani::proof]
+#[kani::unwind(20)]
+fn kc9_adler_len_17() {
+    fixed_len::<17>();
     kani::cover!(true);
 }
 
